@@ -3,6 +3,7 @@
 outside the listed classes D13/D16/D17, which conjunct of the scope predicate fails.
 Usage: tools/scope_why.py [n_rules] [sw]   (model only; nothing is judged)"""
 import collections
+import os
 import re
 import sys
 
@@ -37,14 +38,15 @@ def main():
         classes = common.known_of(line)
         for sw, tags in re.findall(r"\(why (\d+) ([^()]*)\)", line):
             sw = int(sw)
-            if any(k in (13, 16, 17) for k in classes.get(sw, [])):
+            listed = sorted(k for k in classes.get(sw, []) if k in (13, 16, 17))
+            if listed and not os.environ.get("ALL"):
                 continue
-            key = (sw, tags.strip() or "-")
+            key = (sw, tags.strip() or "-", tuple(listed))
             tab[key] += 1
             ex.setdefault(key, []).append(c["rule"])
     for key, v in sorted(tab.items()):
         print(key, v)
-        for r in ex[key][:2]:
+        for r in ex[key][:(0 if os.environ.get("ALL") else 2)]:
             print("    " + r.replace("\n", "\n    "))
 
 
